@@ -53,11 +53,11 @@ Print Assumptions C07_sample_near.
 Example C07_nonvacuous :
   3 <= near_max 8 /\ Forall (in_range 8) (pixelsToIntegers 8 [0; 2; 253; 255; 100; 107; 3; 252; 1]) /\
   (exists s, jlsn_encode 3 3 1 8 3 [0; 2; 253; 255; 100; 107; 3; 252; 1] = Ok s /\
-             jlsn_decode 1000 s = Ok (mkDecoded [0; 0; 255; 255; 101; 108; 3; 252; 0] 3 3 1 8 3)).
+             jlsn_decode 1000 s = Ok (mkDecoded [0; 0; 252; 252; 98; 105; 0; 252; 0] 3 3 1 8 3)).
 Proof.
   split; [vm_compute; discriminate|]. split.
   - apply in_range_forallb; vm_compute; reflexivity.
-  - eexists. split; vm_compute; reflexivity.
+  - eexists. split; [vm_compute; reflexivity|]. vm_compute. reflexivity.
 Qed.
 
 Example C07_nonvacuous_nearmax : near_max 4 = 7 /\
